@@ -391,6 +391,45 @@ fn language(c: &Case, t: &Value) -> Option<Case> {
     Some(c)
 }
 
+/// Conway: two zero-lovelace withdrawals, one from a key credential and one from the credential of the
+/// transaction's own Plutus script, plus a Reward redeemer with pointer `ptr`; `key_first`: the key hash
+/// sorts below the script hash bytewise.  The script withdrawal is index 0 in the ledger's order (script
+/// credentials come first), so ptr = 0 is the valid transaction and ptr = 1 points at the key withdrawal.
+fn withdrawal_pointer(c: &Case, t: &Value, key_low: bool, ptr: u64) -> Option<Case> {
+    if c.era != "conway" || !plutus_wit(t) || c.body().get(5).is_some() {
+        return None;
+    }
+    let script_hash = pv_core::unhex(strs(&t["needScripts"]).first()?);
+    let key_hash = [if key_low { 0x00u8 } else { 0xffu8 }; 28];
+    let net = c.env.net & 1;
+    let acct = |script: bool, h: &[u8]| [&[(if script { 0xf0 } else { 0xe0 }) | net][..], h].concat();
+    let mut c = c.clone();
+    c.body_mut().set(5, Cb::map(vec![(Cb::bytes(&acct(false, &key_hash)), Cb::uint(0)), (Cb::bytes(&acct(true, &script_hash)), Cb::uint(0))]));
+    let r = c.wits_mut().get_mut(5)?;
+    match r {
+        Cb::Map(es, _) => es.push((Cb::array(vec![Cb::uint(3), Cb::uint(ptr)]), Cb::array(vec![Cb::uint(0), Cb::array(vec![Cb::uint(1), Cb::uint(1)])]))),
+        _ => r.items_mut()?.push(Cb::array(vec![Cb::uint(3), Cb::uint(ptr), Cb::uint(0), Cb::array(vec![Cb::uint(1), Cb::uint(1)])])),
+    }
+    c.pad_fee_and_collateral(8000)?;
+    if !crate::mutate::conway_fix_script_data_hash(&mut c) {
+        return None;
+    }
+    c.resign();
+    Some(c)
+}
+fn wd_low_ok(c: &Case, t: &Value) -> Option<Case> {
+    withdrawal_pointer(c, t, true, 0)
+}
+fn wd_high_ok(c: &Case, t: &Value) -> Option<Case> {
+    withdrawal_pointer(c, t, false, 0)
+}
+fn wd_low_wrong(c: &Case, t: &Value) -> Option<Case> {
+    withdrawal_pointer(c, t, true, 1)
+}
+fn wd_high_wrong(c: &Case, t: &Value) -> Option<Case> {
+    withdrawal_pointer(c, t, false, 1)
+}
+
 const TABLE: &[(&str, &str, Mutator)] = &[
     ("InsNonEmpty", "no-inputs", ins_non_empty),
     ("InsInUtxo", "spent-output-missing", ins_in_utxo),
@@ -415,6 +454,10 @@ const TABLE: &[(&str, &str, Mutator)] = &[
     ("ScriptWitness", "scripts-removed", script_witness),
     ("DatumWitness", "datums-removed", datum_witness),
     ("RedeemerCoverage", "extra-redeemer", redeemer_coverage),
+    ("", "withdrawals/key-hash-low/reward-pointer-0", wd_low_ok),
+    ("", "withdrawals/key-hash-high/reward-pointer-0", wd_high_ok),
+    ("RedeemerCoverage", "withdrawals/key-hash-low/reward-pointer-1", wd_low_wrong),
+    ("RedeemerCoverage", "withdrawals/key-hash-high/reward-pointer-1", wd_high_wrong),
     ("AuxHash", "aux-hash-changed", aux_hash),
     ("AuxHash", "aux-data-removed", aux_removed),
     ("ScriptIntegrity", "script-data-hash-changed", script_integrity),
